@@ -379,6 +379,15 @@ func (w *syWorld) react(a k8stesting.Action) (bool, runtime.Object, error) {
 
 var syTime0 = time.Date(2020, 1, 1, 0, 0, 0, 0, time.UTC)
 
+// syDeletionTime: a deletion timestamp is a deletion timestamp whatever the clocks say: long past, or (clock skew between the API
+// server and the controller) still ahead of the controller's clock
+func syDeletionTime(c *syCase) metav1.Time {
+	if (c.gen+c.r)%2 == 1 {
+		return metav1.NewTime(time.Date(2099, 1, 1, 0, 0, 0, 0, time.UTC))
+	}
+	return metav1.NewTime(syTime0)
+}
+
 func syOwnerRefs(owner string) []metav1.OwnerReference {
 	t := true
 	self := metav1.OwnerReference{APIVersion: "apps.pingcap.com/v1", Kind: "StatefulSet", Name: rcSetName, UID: syUID, Controller: &t, BlockOwnerDeletion: &t}
@@ -488,7 +497,7 @@ func buildSyWorld(c *syCase) *syWorld {
 		set.Spec.Selector = &metav1.LabelSelector{MatchExpressions: []metav1.LabelSelectorRequirement{{Key: "app", Operator: "Bogus", Values: []string{"x"}}}}
 	}
 	if c.del {
-		t := metav1.NewTime(syTime0)
+		t := syDeletionTime(c)
 		set.DeletionTimestamp = &t
 	}
 	set.Status = apps.StatefulSetStatus{
@@ -509,7 +518,7 @@ func buildSyWorld(c *syCase) *syWorld {
 		}
 		fresh.DeletionTimestamp = nil
 		if c.fdel {
-			t := metav1.NewTime(syTime0)
+			t := syDeletionTime(c)
 			fresh.DeletionTimestamp = &t
 		}
 		pcObjs = append(pcObjs, fresh)
@@ -536,9 +545,8 @@ func buildSyWorld(c *syCase) *syWorld {
 		kubeObjs = append(kubeObjs, rev)
 	}
 	// pods: cache and API hold the same objects
-	okSet := set
+	okSet := set.DeepCopy() // never the cached object itself: building a pod writes the selector's labels into the claim templates' label maps
 	if !c.selOk {
-		okSet = set.DeepCopy()
 		okSet.Spec.Selector = &metav1.LabelSelector{MatchLabels: map[string]string{"app": rcSetName}}
 	}
 	for _, p := range c.pods {
@@ -776,6 +784,11 @@ func genSyPod(rng *rand.Rand, c *syCase, ord int, revNames []string) syPod {
 		p.idOk = false
 	default:
 		p.name = pick(rng, rcSetName+"-", rcSetName, "lonely") + pick(rng, "", "a")
+		if rng.Intn(3) == 0 {
+			// a neighbour whose set's name extends this set's name at a dash (web-1-0 is pod 0 of web-1, not of web), and names
+			// that are nothing but a number
+			p.name = pick(rng, fmt.Sprintf("%s-1-%d", rcSetName, ord), fmt.Sprintf("%s-replica-%d", rcSetName, ord), fmt.Sprintf("%s-0-%d", rcSetName, ord), "2024", "0", "7")
+		}
 		p.member = false
 		p.ord = -1
 		p.idOk = false
@@ -915,6 +928,15 @@ func genSyCase(rng *rand.Rand) *syCase {
 			continue
 		}
 		c.pods = append(c.pods, genSyPod(rng, c, o, revNames))
+	}
+	if rng.Intn(60) == 0 { // a take-over: several dozen matching orphans with canonical names, all to be adopted in one pass
+		crowd := 33 + rng.Intn(12)
+		c.pods = nil
+		for o := 0; o < crowd; o++ {
+			p := genSyPod(rng, c, o, revNames)
+			p.name, p.ord, p.member, p.owner, p.sel, p.term = fmt.Sprintf("%s-%d", rcSetName, o), o, true, "n", true, false
+			c.pods = append(c.pods, p)
+		}
 	}
 	if rng.Intn(25) == 0 { // a zero-padded name whose number has an 8 or 9 in it or two digits: decimal, whatever it looks like
 		o := pick(rng, 8, 9, 10, 12, 17)
